@@ -112,6 +112,10 @@ func NewMultiEndpoint(b *MultiEndpointOptions) (MultiEndpoint, error) {
 		switchingDelay:  b.SwitchingDelay,
 		current:         b.Endpoints[0],
 	}
+	// Recovery timers are started while the endpoints are created; their
+	// callbacks take the lock, so hold it until the endpoints are fully set up.
+	me.Lock()
+	defer me.Unlock()
 	eMap := make(map[string]*endpoint)
 	for i, e := range b.Endpoints {
 		eMap[e] = me.newEndpoint(e, i)
